@@ -14,15 +14,16 @@ cp MUTANT.diff $OUT/patch.diff; cp MUTANT.md $OUT/ 2>/dev/null; [ -n "$DEMO" ] &
 PKG=./$(dirname "$DEMO")
 echo "== with change: build + existing tests"
 go build ./... || { echo "BUILD FAILS"; exit 1; }
-mv $DEMO /tmp/zz_demo_hold.go
+mv $DEMO /tmp/zz_demo_hold_$NAME.go
 go test -vet=off -count=1 -timeout 20m ./... 2>&1 | grep -v "no test files" | grep -v "^ok" | head -20 > $OUT/existing_tests_with_change.txt
-mv /tmp/zz_demo_hold.go $DEMO
+mv /tmp/zz_demo_hold_$NAME.go $DEMO
 EXIST=$(grep -c FAIL $OUT/existing_tests_with_change.txt)
 echo "existing-suite FAIL lines with change: $EXIST"
 go test -vet=off -count=1 -run 'Demo' $PKG > $OUT/demo_with_change.txt 2>&1; W=$?
-git stash -q -- $(git diff --name-only) 2>/dev/null
+# (no git stash: the stash is shared between all worktrees of a repository)
+git apply -R $OUT/patch.diff || { echo "cannot reverse the patch"; exit 1; }
 go test -vet=off -count=1 -run 'Demo' $PKG > $OUT/demo_without_change.txt 2>&1; WO=$?
-git stash pop -q
+git apply $OUT/patch.diff
 echo "demo exit with change: $W (want != 0), without: $WO (want 0)"
 if [ -n "${MUT_SCRATCH:-}" ]; then
   # /repo is busy (a full run is reading it): use a scratch copy of /repo's working tree instead
